@@ -324,6 +324,10 @@ def write_feature_problems(rd, entries):
             EXPECT.setdefault(name, []).append(json.dumps(
                 {'e': 'expect', 'name': name, 'var': '', 'kind': 'unsolvable', 'dom0': [], 'allowed': [], 'sat': 0, 'value': [0, 1], 'bvalue': 0},
                 separators=(',', ':')))
+        for (var, lo) in gen_features.EXTRA_EXPECT.get(name, []):      # a constraint of the rule of a goal that is in the plan
+            EXPECT.setdefault(name, []).append(json.dumps(
+                {'e': 'expect', 'name': name, 'var': var, 'kind': 'sentinel', 'dom0': [], 'allowed': [], 'sat': 1, 'value': [lo, 1], 'bvalue': 0},
+                separators=(',', ':')))
         if len(parts) > 1 and not name.startswith('fs_'):
             parts = list(parts)
             for k in range(1, len(parts)):
@@ -369,6 +373,10 @@ def feature_problems(rd, fams, seed, tier):
             ent += gen_features.unify_family()
         elif fam == 'stricttie':
             ent += gen_features.strict_tie_family()
+        elif fam == 'deepchain':
+            ent += gen_features.deep_chain_family()
+        elif fam == 'enummember':
+            ent += gen_features.enum_member_family()
     return write_feature_problems(rd, ent), {n: s_ for n, p, s_ in ent}
 
 
